@@ -430,6 +430,22 @@ func Scenarios(tier string) []Scenario {
 			Threads: [][]Op{{call(0, 0)}, {call(1, 0)}}})
 	}
 	out = append(out, generated(tier)...)
+	// S9: a warm-up call on an object of 70 members (size thresholds of pooled buffers), then
+	// two overlapping calls on small objects
+	var sb strings.Builder
+	sb.WriteString("{")
+	for i := 0; i < 70; i++ {
+		if i > 0 {
+			sb.WriteString(",")
+		}
+		fmt.Fprintf(&sb, `"k%02d":%d`, (i*37)%70, i)
+	}
+	sb.WriteString("}")
+	for _, path := range []string{`$.*`, `$..*`, `$[?(@ > 1)]`, `$['k01','b',*]`} {
+		out = append(out, Scenario{Name: "S9 big object first, then two calls " + path, Fns: []FnSpec{{path, 0}},
+			Docs:    []string{sb.String(), `{"b":2,"a":1}`, `{"d":4,"c":3,"e":5}`},
+			Threads: [][]Op{{call(0, 0), call(0, 1)}, {call(0, 2)}}})
+	}
 	// S8: non-JSON leaves of Go types the process has not seen before, every kind of step applied to them
 	for _, path := range []string{`$.a.b.c`, `$.a.b[0]`, `$.a.b.*`, `$.a.b[?(@.x)]`, `$.a.b..x`, `$.a.b['x','y']`, `$.a[?(@.b.f() == 1)]`} {
 		out = append(out, Scenario{Name: "S8 fresh Go types " + path, Fns: []FnSpec{{path, 1}}, Docs: []string{"", ""}, Fresh: true,
